@@ -1,6 +1,7 @@
 package main
 
 import (
+	"math"
 	"fmt"
 	"go/token"
 	"go/types"
@@ -126,6 +127,7 @@ func runC15(p *Prog, l *Ledger) {
 		})
 		var bad3, bad4 []string
 		periodFactors := map[string]FieldRef{}
+		jitterFields := map[string]FieldRef{}
 		// the bound the counter is compared with: a constant (count-down) or a value computed, at the time of the test,
 		// from the current estimate (count-up to multiplier x limit) - never a snapshot stored when the period began
 		if counter != nil {
@@ -171,6 +173,9 @@ func runC15(p *Prog, l *Ledger) {
 							case fr.Type != nil && types.Identical(fr.Type, T) && !p.FieldImmutable(fr) && !sameField(fr, *counter):
 								// a jitter factor redrawn at each probe is fine as long as the estimate itself is read now
 								usesMutable = fr.Name
+								if isFloat(structOf(T).Field(fr.Index).Type()) {
+									jitterFields[p.FieldKey(fr)] = fr
+								}
 							case fr.Type != nil && types.Identical(fr.Type, T) && p.FieldImmutable(fr) && isIntegral(structOf(T).Field(fr.Index).Type()):
 								periodFactors[p.FieldKey(fr)] = fr
 							}
@@ -196,6 +201,20 @@ func runC15(p *Prog, l *Ledger) {
 		for k, fr := range periodFactors {
 			if !p.ImmutableFieldBound(fr, 1, false) {
 				bad4 = append(bad4, fmt.Sprintf("the probe period factor %s is not proved >= 1 by the constructors: a non-positive value switches the periodic baseline reset off (or fires it on every sample)", k))
+			}
+		}
+		// a random factor of the probe period stretches it by at most 1: every value stored into it is proved <= 1 from the
+		// contract of the random source (rand.Float64 is in [0,1)), so that a reset recurs within multiplier x limit samples
+		for k, jf := range jitterFields {
+			for _, fn := range p.Funcs {
+				for _, a := range p.Accesses(fn) {
+					if !a.Write || a.Pointee || !sameField(a.Field, jf) {
+						continue
+					}
+					if why := c15AtMostOne(p, fn, a.Val, 2); why != "" {
+						bad4 = append(bad4, fmt.Sprintf("%s: the random factor %s of the probe period is not proved <= 1 (%s): the baseline can stay unrefreshed for longer than multiplier x limit samples", p.At(a.Instr), k, why))
+					}
+				}
 			}
 		}
 		// who may write the counter: OnSample itself (where the path rule below sees every write) and constructors
@@ -522,4 +541,110 @@ func c15JitterRedrawn(p *Prog, pa *Path, T *types.Named) bool {
 		return true
 	})
 	return ok
+}
+
+// c15AtMostOne: v (computed in fn) is proved <= 1, taking rand.Float64() in [0,1]; a call of a module function with one
+// result is followed into that function's return values.
+func c15AtMostOne(p *Prog, fn *ssa.Function, v ssa.Value, depth int) string {
+	return c15AtMostOneEnv(p, fn, v, depth, nil)
+}
+
+func c15AtMostOneEnv(p *Prog, fn *ssa.Function, v ssa.Value, depth int, env map[ssa.Value]*ssa.Function) string {
+	v = strip(v, false)
+	if call, ok := v.(*ssa.Call); ok {
+		if c := p.CallOf(call); c.Static != nil && p.InModule(c.Static) && c.Static.Blocks != nil && c.Static.Signature.Results().Len() == 1 && depth > 0 {
+			why := ""
+			n := 0
+			allInstrs(c.Static, func(ins ssa.Instruction) {
+				if ret, isR := ins.(*ssa.Return); isR && len(ret.Results) == 1 {
+					n++
+					// function-typed arguments that denote one named function (the random source handed to the helper)
+					env2 := map[ssa.Value]*ssa.Function{}
+					for i, a := range call.Call.Args {
+						if i < len(c.Static.Params) {
+							if fv := p.constFuncOf(a); fv != nil {
+								env2[c.Static.Params[i]] = fv
+							} else if env != nil {
+								if fv := env[strip(a, false)]; fv != nil {
+									env2[c.Static.Params[i]] = fv
+								}
+							}
+						}
+					}
+					if w := c15AtMostOneEnv(p, c.Static, ret.Results[0], depth-1, env2); w != "" {
+						why = w
+					}
+				}
+			})
+			if n == 0 {
+				return "no return value"
+			}
+			return why
+		}
+	}
+	// interval arithmetic over constants and the random source
+	var iv func(v ssa.Value, d int) (float64, float64, bool)
+	iv = func(v ssa.Value, d int) (float64, float64, bool) {
+		v = strip(v, true)
+		if d > 12 {
+			return 0, 0, false
+		}
+		if k, ok := constFloat(v); ok {
+			return k, k, true
+		}
+		switch x := v.(type) {
+		case *ssa.Call:
+			if c := p.CallOf(x); c != nil && (c.Name == "math/rand.Float64" || c.Name == "(*math/rand.Rand).Float64" || c.Name == "math/rand/v2.Float64") {
+				return 0, 1, true
+			}
+			// the random source reached through a parameter / field / variable that denotes rand.Float64
+			callee := strip(x.Call.Value, false)
+			fv := p.constFuncOf(callee)
+			if fv == nil && env != nil {
+				fv = env[callee]
+			}
+			if fv != nil && fv.Pkg != nil && strings.HasPrefix(fv.Pkg.Pkg.Path(), "math/rand") && fv.Name() == "Float64" {
+				return 0, 1, true
+			}
+		case *ssa.Convert:
+			return iv(x.X, d+1)
+		case *ssa.BinOp:
+			l1, h1, ok1 := iv(x.X, d+1)
+			l2, h2, ok2 := iv(x.Y, d+1)
+			if !ok1 || !ok2 {
+				return 0, 0, false
+			}
+			switch x.Op {
+			case token.ADD:
+				return l1 + l2, h1 + h2, true
+			case token.SUB:
+				return l1 - h2, h1 - l2, true
+			case token.MUL:
+				c := []float64{l1 * l2, l1 * h2, h1 * l2, h1 * h2}
+				lo, hi := c[0], c[0]
+				for _, y := range c {
+					lo, hi = math.Min(lo, y), math.Max(hi, y)
+				}
+				return lo, hi, true
+			case token.QUO:
+				if l2 > 0 || h2 < 0 {
+					c := []float64{l1 / l2, l1 / h2, h1 / l2, h1 / h2}
+					lo, hi := c[0], c[0]
+					for _, y := range c {
+						lo, hi = math.Min(lo, y), math.Max(hi, y)
+					}
+					return lo, hi, true
+				}
+			}
+		}
+		return 0, 0, false
+	}
+	_, hi, ok := iv(v, 0)
+	if !ok {
+		return "its range cannot be computed: " + valueString(v)
+	}
+	if hi > 1 {
+		return fmt.Sprintf("it can be as large as %g", hi)
+	}
+	return ""
 }
